@@ -44,6 +44,9 @@ def instances(tier, seed):
         add(f"rt:{style}:bond:tilted", style=style, N=2, terms={'bond': 1}, tilt='sym', c0=0, cost=60)
         add(f"rt:{style}:angle+improper:ortho", style=style, N=2, terms={'angle': 1, 'improper': 1}, tilt='zero', c0=2, cost=30)
     add("rt:full:dihedral:tilted", style='full', N=2, terms={'dihedral': 1}, tilt='sym', c0=4, cost=60)
+    # two terms of one kind whose (symbolic) atom tuples may coincide: a multi-term torsion / a doubled bond entry is two entries
+    add("rt:full:bond-x2:ortho", style='full', N=2, terms={'bond': 2}, tilt='zero', c0=0, cost=60)
+    add("rt:atomic:dihedral-x2:ortho", style='atomic', N=2, terms={'dihedral': 2}, tilt='zero', c0=4, cost=90)
     add("rt:full:no-terms-no-coeffs", style='full', N=2, terms={}, tilt='zero', c0=None, cost=10)
     add("rt:full:emptied-kind-with-table", style='full', N=2, terms={}, tilt='zero', c0=1, tables_without_terms=True, cost=10)
     add("rt:atomic:no-cell", style='atomic', N=2, terms={'bond': 1}, tilt=None, c0=6, cost=10)
